@@ -7,16 +7,34 @@ namespace C22
 
 /-! ### index multimap -/
 
-theorem Idx.mem_add (x : Idx) (p y : Nat × Nat) : y ∈ Idx.add x p ↔ y = p ∨ y ∈ x := by
+theorem Idx.ins_perm (x : Idx) (p : Nat × Nat) : (Idx.ins x p).Perm (p :: x) := by
   induction x with
-  | nil => simp [Idx.add]
+  | nil => simp [Idx.ins]
   | cons q r ih =>
-    unfold Idx.add
-    by_cases h1 : p = q
-    · subst h1; simp
-    · by_cases h2 : pairLt p q = true
-      · simp [h1, h2]
-      · simp [h1, h2, ih]; grind
+    unfold Idx.ins
+    split
+    · exact List.Perm.refl _
+    · exact (List.Perm.cons q ih).trans (List.Perm.swap p q r)
+
+theorem Idx.mem_add (x : Idx) (p y : Nat × Nat) : y ∈ Idx.add x p ↔ y = p ∨ y ∈ x := by
+  unfold Idx.add
+  by_cases h : x.contains p = true
+  · rw [if_pos h]
+    have : p ∈ x := by simpa using h
+    constructor
+    · exact Or.inr
+    · rintro (rfl | h') <;> assumption
+  · rw [if_neg h, (Idx.ins_perm x p).mem_iff]; simp
+
+theorem Idx.nodup_add (x : Idx) (p : Nat × Nat) (h : x.Nodup) : (Idx.add x p).Nodup := by
+  unfold Idx.add
+  by_cases hc : x.contains p = true
+  · rw [if_pos hc]; exact h
+  · rw [if_neg hc, (Idx.ins_perm x p).nodup_iff, List.nodup_cons]
+    exact ⟨by simpa using hc, h⟩
+
+theorem Idx.nodup_del (x : Idx) (p : Nat × Nat) (h : x.Nodup) : (Idx.del x p).Nodup :=
+  h.sublist List.filter_sublist
 
 theorem Idx.mem_del (x : Idx) (p y : Nat × Nat) : y ∈ Idx.del x p ↔ y ∈ x ∧ y ≠ p := by
   simp [Idx.del]
@@ -47,7 +65,7 @@ theorem Idx.hasValue_iff (x : Idx) (k v : Nat) : Idx.hasValue x k v = true ↔ (
 def Store.has (st : Store) (w : Which) (k v : Nat) : Prop := (k, v) ∈ st.idx w
 
 /-- the pin record of an id -/
-def Store.rec? (st : Store) (id : Nat) : Option PinRec := AMap.find st.recs id
+def Store.rec? (st : Store) (id : Nat) : Option PinRec := RMap.find st.recs id
 
 @[simp] theorem Store.idx_setIdx (st : Store) (w w' : Which) (x : Idx) :
     (st.setIdx w x).idx w' = if w' = w then x else st.idx w' := by
@@ -88,13 +106,1117 @@ theorem Store.rec_apply (st : Store) (wr : Write) (id : Nat) :
       | _ => st.rec? id := by
   cases wr with
   | putDirty b => rfl
-  | putRec id' r => simp [Store.apply, Store.rec?, AMap.find_insert]
-  | delRec id' => simp [Store.apply, Store.rec?, AMap.find_erase]
+  | putRec id' r => simp [Store.apply, Store.rec?, RMap.find_insert]
+  | delRec id' => simp [Store.apply, Store.rec?, RMap.find_erase]
   | addIdx w k v => simp [Store.apply, Store.rec?]
   | delIdx w k v => simp [Store.apply, Store.rec?]
 
 theorem Store.dirty_apply (st : Store) (wr : Write) :
     (st.apply wr).dirty = match wr with | .putDirty b => some b | _ => st.dirty := by
   cases wr <;> simp [Store.apply]
+
+/-! ### consistency predicates -/
+
+/-- every index entry has a matching pin record (cid, mode, name) -/
+structure Store.NoOrphan (st : Store) : Prop where
+  r : ∀ c id, st.has .R c id → ∃ nm, st.rec? id = some ⟨c, .recursive, nm⟩
+  d : ∀ c id, st.has .D c id → ∃ nm, st.rec? id = some ⟨c, .direct, nm⟩
+  n : ∀ nm id, st.has .N nm id → nm ≠ 0 ∧ ∃ c m, st.rec? id = some ⟨c, m, nm⟩
+
+/-- every pin record is indexed: in the cid index of its mode, and in the name index when named -/
+def Store.Indexed (st : Store) : Prop :=
+  ∀ id pp, st.rec? id = some pp →
+    st.has (modeIdx pp.mode) pp.cid id ∧ (pp.name ≠ 0 → st.has .N pp.name id)
+
+/-- records and indexes agree (the predicate of property C23) -/
+def Store.Consistent (st : Store) : Prop := st.NoOrphan ∧ st.Indexed
+
+/-- what a crash image must satisfy for `New` to repair it: no orphan index entries, and complete
+indexes unless the dirty flag is set -/
+def Store.Safe (st : Store) : Prop := st.NoOrphan ∧ (st.dirty ≠ some 1 → st.Indexed)
+
+theorem Store.applyAll_append (st : Store) (a b : List Write) :
+    st.applyAll (a ++ b) = (st.applyAll a).applyAll b := by
+  simp [Store.applyAll, List.foldl_append]
+
+/-- the store is the start store plus the log, and every prefix of the log gives a safe image -/
+def Tr (s0 : Store) (s : St) : Prop :=
+  s.store = s0.applyAll s.log ∧ ∀ n, (s0.applyAll (s.log.take n)).Safe
+
+theorem Tr.write {s0 : Store} {s : St} (h : Tr s0 s) (w : Write) (hs : (s.store.apply w).Safe) :
+    Tr s0 (s.write w) := by
+  obtain ⟨h1, h2⟩ := h
+  refine ⟨?_, ?_⟩
+  · simp only [St.write, Store.applyAll_append]
+    rw [← h1]; rfl
+  · intro n
+    by_cases hn : n ≤ s.log.length
+    · have : (s.log ++ [w]).take n = s.log.take n := by
+        rw [List.take_append_of_le_length hn]
+      simpa [St.write, this] using h2 n
+    · have : (s.log ++ [w]).take n = s.log ++ [w] := by
+        apply List.take_of_length_le; simp; omega
+      simp only [St.write, this, Store.applyAll_append, ← h1]
+      simpa [Store.applyAll] using hs
+
+theorem Tr.start (s : St) (h : s.store.Safe) : Tr s.store { s with log := [] } := by
+  refine ⟨by simp [Store.applyAll], ?_⟩
+  intro n; simpa [Store.applyAll] using h
+
+/-- invariant at the boundaries between the primitive steps of an operation -/
+structure Good (s0 : Store) (s : St) : Prop where
+  tr : Tr s0 s
+  cons : s.store.Consistent
+  flag : s.memDirty = true ↔ s.store.dirty = some 1
+  fresh : ∀ id, s.nextId ≤ id → s.store.rec? id = none
+  nodup : RMap.NoDupKeys s.store.recs
+
+/-- invariant inside a primitive step, after `setDirty` -/
+structure Mid (s0 : Store) (s : St) : Prop where
+  tr : Tr s0 s
+  noOrphan : s.store.NoOrphan
+  dirty : s.store.dirty = some 1
+  mem : s.memDirty = true
+  nodup : RMap.NoDupKeys s.store.recs
+
+theorem Mid.write {s0 : Store} {s : St} (h : Mid s0 s) (w : Write) (hw : ∀ b, w ≠ .putDirty b)
+    (hno : (s.store.apply w).NoOrphan) : Mid s0 (s.write w) := by
+  have hd : (s.store.apply w).dirty = some 1 := by
+    rw [Store.dirty_apply]; cases w <;> simp_all [h.dirty]
+  refine ⟨h.tr.write w ⟨hno, by simp [hd]⟩, hno, hd, h.mem, ?_⟩
+  cases w with
+  | putRec id r => exact RMap.noDupKeys_insert _ _ _ h.nodup
+  | delRec id => exact RMap.noDupKeys_erase _ _ h.nodup
+  | putDirty b => exact h.nodup
+  | addIdx w k v => simpa [St.write, Store.apply] using h.nodup
+  | delIdx w k v => simpa [St.write, Store.apply] using h.nodup
+
+theorem good_setDirty {s0 : Store} {s : St} (h : Good s0 s) : Mid s0 (setDirty s) := by
+  unfold C22.setDirty
+  by_cases hm : s.memDirty = true
+  · simp only [hm, if_true]
+    exact ⟨h.tr, h.cons.1, h.flag.1 hm, hm, h.nodup⟩
+  · simp only [hm]
+    have hno : (s.store.apply (.putDirty 1)).NoOrphan := by
+      constructor <;> intro a b hab <;> simp only [Store.has_apply, Store.rec_apply] at hab ⊢
+      · exact h.cons.1.r a b hab
+      · exact h.cons.1.d a b hab
+      · exact h.cons.1.n a b hab
+    have ht := h.tr.write (.putDirty 1) ⟨hno, by simp [Store.dirty_apply]⟩
+    exact ⟨ht, hno, by simp [St.write, Store.dirty_apply], rfl, by simpa [St.write, Store.apply] using h.nodup⟩
+
+theorem mid_setDirty {s0 : Store} {s : St} (h : Mid s0 s) : setDirty s = s := by
+  simp [C22.setDirty, h.mem]
+
+/-- leaving a primitive step: the indexes are complete again -/
+theorem Mid.toGood {s0 : Store} {s : St} (h : Mid s0 s) (hi : s.store.Indexed)
+    (hf : ∀ id, s.nextId ≤ id → s.store.rec? id = none) : Good s0 s :=
+  ⟨h.tr, ⟨h.noOrphan, hi⟩, ⟨fun _ => h.dirty, fun _ => h.mem⟩, hf, h.nodup⟩
+
+theorem good_setClean {s0 : Store} {s : St} (h : Good s0 s) : Good s0 (setClean s) := by
+  unfold C22.setClean
+  by_cases hm : s.memDirty = true
+  · simp only [hm, if_true]
+    have hno : (s.store.apply (.putDirty 0)).NoOrphan := by
+      constructor <;> intro a b hab <;> simp only [Store.has_apply, Store.rec_apply] at hab ⊢
+      · exact h.cons.1.r a b hab
+      · exact h.cons.1.d a b hab
+      · exact h.cons.1.n a b hab
+    have hix : (s.store.apply (.putDirty 0)).Indexed := by
+      intro id pp hp
+      simp only [Store.has_apply, Store.rec_apply] at hp ⊢
+      exact h.cons.2 id pp hp
+    refine ⟨h.tr.write _ ⟨hno, fun _ => hix⟩, ⟨hno, hix⟩, by simp [St.write, Store.dirty_apply], ?_, by simpa [St.write, Store.apply] using h.nodup⟩
+    intro id hid
+    simpa [St.write, Store.rec_apply] using h.fresh id hid
+  · simp only [hm]
+    exact h
+
+/-! ### effects of the primitive steps on the views -/
+
+@[simp] theorem write_rec (s : St) (w : Write) (id : Nat) :
+    (s.write w).store.rec? id = (s.store.apply w).rec? id := rfl
+@[simp] theorem write_has (s : St) (w : Write) (x : Which) (k v : Nat) :
+    (s.write w).store.has x k v ↔ (s.store.apply w).has x k v := Iff.rfl
+@[simp] theorem write_nextId (s : St) (w : Write) : (s.write w).nextId = s.nextId := rfl
+@[simp] theorem write_present (s : St) (w : Write) : (s.write w).present = s.present := rfl
+@[simp] theorem write_memDirty (s : St) (w : Write) : (s.write w).memDirty = s.memDirty := rfl
+
+@[simp] theorem setDirty_rec (s : St) (id : Nat) : (setDirty s).store.rec? id = s.store.rec? id := by
+  unfold setDirty; split <;> simp [Store.rec_apply]
+@[simp] theorem setDirty_has (s : St) (x : Which) (k v : Nat) :
+    (setDirty s).store.has x k v ↔ s.store.has x k v := by
+  unfold setDirty; split <;> simp [Store.has_apply]
+@[simp] theorem setDirty_nextId (s : St) : (setDirty s).nextId = s.nextId := by
+  unfold setDirty; split <;> simp
+@[simp] theorem setDirty_present (s : St) : (setDirty s).present = s.present := by
+  unfold setDirty; split <;> simp
+
+@[simp] theorem setClean_rec (s : St) (id : Nat) : (setClean s).store.rec? id = s.store.rec? id := by
+  unfold setClean; split <;> simp [Store.rec_apply]
+@[simp] theorem setClean_has (s : St) (x : Which) (k v : Nat) :
+    (setClean s).store.has x k v ↔ s.store.has x k v := by
+  unfold setClean; split <;> simp [Store.has_apply]
+@[simp] theorem setClean_nextId (s : St) : (setClean s).nextId = s.nextId := by
+  unfold setClean; split <;> simp
+@[simp] theorem setClean_present (s : St) : (setClean s).present = s.present := by
+  unfold setClean; split <;> simp
+@[simp] theorem setClean_memDirty (s : St) : (setClean s).memDirty = false := by
+  unfold setClean; split <;> simp_all
+theorem addPin_rec (s : St) (c : Nat) (m : Mode) (name : Nat) (id : Nat) :
+    (addPin s c m name).store.rec? id = if s.nextId = id then some ⟨c, m, name⟩ else s.store.rec? id := by
+  unfold addPin
+  by_cases hn : name = 0 <;> simp [hn, Store.rec_apply]
+
+theorem addPin_has (s : St) (c : Nat) (m : Mode) (name : Nat) (x : Which) (k v : Nat) :
+    (addPin s c m name).store.has x k v ↔
+      (x = modeIdx m ∧ k = c ∧ v = s.nextId) ∨ (x = .N ∧ name ≠ 0 ∧ k = name ∧ v = s.nextId) ∨
+        s.store.has x k v := by
+  unfold addPin
+  by_cases hn : name = 0
+  · simp [hn, Store.has_apply]
+  · simp [hn, Store.has_apply]; grind
+
+@[simp] theorem addPin_nextId (s : St) (c : Nat) (m : Mode) (name : Nat) :
+    (addPin s c m name).nextId = s.nextId + 1 := by
+  unfold addPin; by_cases hn : name = 0 <;> simp [hn]
+
+@[simp] theorem addPin_present (s : St) (c : Nat) (m : Mode) (name : Nat) :
+    (addPin s c m name).present = s.present := by
+  unfold addPin; by_cases hn : name = 0 <;> simp [hn]
+
+theorem removePin_rec (s : St) (id : Nat) (pp : PinRec) (j : Nat) :
+    (removePin s id pp).store.rec? j = if id = j then none else s.store.rec? j := by
+  unfold removePin
+  by_cases hn : pp.name = 0 <;> simp [hn, Store.rec_apply]
+
+theorem removePin_has (s : St) (id : Nat) (pp : PinRec) (x : Which) (k v : Nat) :
+    (removePin s id pp).store.has x k v ↔
+      s.store.has x k v ∧ ¬ (x = modeIdx pp.mode ∧ k = pp.cid ∧ v = id) ∧
+        ¬ (x = .N ∧ pp.name ≠ 0 ∧ k = pp.name ∧ v = id) := by
+  unfold removePin
+  by_cases hn : pp.name = 0
+  · simp [hn, Store.has_apply]
+  · simp [hn, Store.has_apply]; grind
+
+@[simp] theorem removePin_nextId (s : St) (id : Nat) (pp : PinRec) : (removePin s id pp).nextId = s.nextId := by
+  unfold removePin; by_cases hn : pp.name = 0 <;> simp [hn]
+@[simp] theorem removePin_present (s : St) (id : Nat) (pp : PinRec) : (removePin s id pp).present = s.present := by
+  unfold removePin; by_cases hn : pp.name = 0 <;> simp [hn]
+
+/-! ### NoOrphan under single writes -/
+
+theorem Store.NoOrphan.noEntry {st : Store} (h : st.NoOrphan) (id : Nat) (hid : st.rec? id = none)
+    (w : Which) (k : Nat) : ¬ st.has w k id := by
+  intro hh
+  cases w with
+  | R => obtain ⟨nm, e⟩ := h.r k id hh; simp [hid] at e
+  | D => obtain ⟨nm, e⟩ := h.d k id hh; simp [hid] at e
+  | N => obtain ⟨_, c, m, e⟩ := h.n k id hh; simp [hid] at e
+
+theorem Store.NoOrphan.putRec {st : Store} (h : st.NoOrphan) (id : Nat) (r : PinRec)
+    (hid : st.rec? id = none) : (st.apply (.putRec id r)).NoOrphan := by
+  constructor
+  · intro c j hj
+    simp only [Store.has_apply, Store.rec_apply] at hj ⊢
+    have : id ≠ j := fun e => h.noEntry id hid .R c (e ▸ hj)
+    simpa [this] using h.r c j hj
+  · intro c j hj
+    simp only [Store.has_apply, Store.rec_apply] at hj ⊢
+    have : id ≠ j := fun e => h.noEntry id hid .D c (e ▸ hj)
+    simpa [this] using h.d c j hj
+  · intro c j hj
+    simp only [Store.has_apply, Store.rec_apply] at hj ⊢
+    have : id ≠ j := fun e => h.noEntry id hid .N c (e ▸ hj)
+    simpa [this] using h.n c j hj
+
+theorem Store.NoOrphan.delIdx {st : Store} (h : st.NoOrphan) (w : Which) (k v : Nat) :
+    (st.apply (.delIdx w k v)).NoOrphan := by
+  constructor <;> intro a b hab <;> simp only [Store.has_apply, Store.rec_apply] at hab ⊢
+  · exact h.r a b hab.1
+  · exact h.d a b hab.1
+  · exact h.n a b hab.1
+
+theorem Store.NoOrphan.addIdx {st : Store} (h : st.NoOrphan) (w : Which) (k v : Nat)
+    (hr : match w with
+      | .R => ∃ nm, st.rec? v = some ⟨k, .recursive, nm⟩
+      | .D => ∃ nm, st.rec? v = some ⟨k, .direct, nm⟩
+      | .N => k ≠ 0 ∧ ∃ c m, st.rec? v = some ⟨c, m, k⟩) :
+    (st.apply (.addIdx w k v)).NoOrphan := by
+  constructor <;> intro a b hab <;> simp only [Store.has_apply, Store.rec_apply] at hab ⊢
+  · rcases hab with ⟨rfl, rfl, rfl⟩ | hab
+    · exact hr
+    · exact h.r a b hab
+  · rcases hab with ⟨rfl, rfl, rfl⟩ | hab
+    · exact hr
+    · exact h.d a b hab
+  · rcases hab with ⟨rfl, rfl, rfl⟩ | hab
+    · exact hr
+    · exact h.n a b hab
+
+theorem Store.NoOrphan.delRec {st : Store} (h : st.NoOrphan) (id : Nat)
+    (hno : ∀ w k, ¬ st.has w k id) : (st.apply (.delRec id)).NoOrphan := by
+  constructor <;> intro a b hab <;> simp only [Store.has_apply, Store.rec_apply] at hab ⊢
+  · have : id ≠ b := fun e => hno .R a (e ▸ hab)
+    simpa [this] using h.r a b hab
+  · have : id ≠ b := fun e => hno .D a (e ▸ hab)
+    simpa [this] using h.d a b hab
+  · have : id ≠ b := fun e => hno .N a (e ▸ hab)
+    simpa [this] using h.n a b hab
+
+/-! ### the primitive steps preserve `Good` -/
+
+theorem good_addPin {s0 : Store} {s : St} (h : Good s0 s) (c : Nat) (m : Mode) (name : Nat) :
+    Good s0 (addPin s c m name) := by
+  have hid : s.store.rec? s.nextId = none := h.fresh _ (Nat.le_refl _)
+  have h1 : Good s0 { s with nextId := s.nextId + 1 } :=
+    ⟨h.tr, h.cons, h.flag, fun id hh => h.fresh id (by simp at hh; omega), h.nodup⟩
+  have m2 := good_setDirty h1
+  have m3 := m2.write (.putRec s.nextId ⟨c, m, name⟩) (by simp)
+    (m2.noOrphan.putRec _ _ (by simpa using hid))
+  have m4 := m3.write (.addIdx (modeIdx m) c s.nextId) (by simp)
+    (m3.noOrphan.addIdx _ _ _ (by cases m <;> simp [modeIdx, Store.rec_apply]))
+  have hfin : Good s0 (addPin s c m name) := by
+    by_cases hn : name = 0
+    · have e : addPin s c m name = ((setDirty { s with nextId := s.nextId + 1 }).write
+          (.putRec s.nextId ⟨c, m, name⟩)).write (.addIdx (modeIdx m) c s.nextId) := by
+        simp [C22.addPin, hn]
+      rw [e]
+      refine m4.toGood ?_ ?_
+      · intro id pp hp
+        simp only [write_rec, write_has, Store.rec_apply, Store.has_apply, setDirty_rec, setDirty_has] at hp ⊢
+        by_cases hi : s.nextId = id
+        · subst hi; simp at hp; subst hp; simp [hn]
+        · simp only [hi, if_false] at hp
+          have := h.cons.2 id pp hp
+          exact ⟨Or.inr this.1, fun h2 => Or.inr (this.2 h2)⟩
+      · intro id hh
+        simp only [write_rec, Store.rec_apply, setDirty_rec, write_nextId, setDirty_nextId] at hh ⊢
+        have : s.nextId ≠ id := by omega
+        simpa [this] using h.fresh id (by omega)
+    · have m5 := m4.write (.addIdx .N name s.nextId) (by simp)
+        (m4.noOrphan.addIdx _ _ _ (by simp [Store.rec_apply, hn]))
+      have e : addPin s c m name = (((setDirty { s with nextId := s.nextId + 1 }).write
+          (.putRec s.nextId ⟨c, m, name⟩)).write (.addIdx (modeIdx m) c s.nextId)).write
+            (.addIdx .N name s.nextId) := by
+        simp [C22.addPin, hn]
+      rw [e]
+      refine m5.toGood ?_ ?_
+      · intro id pp hp
+        simp only [write_rec, write_has, Store.rec_apply, Store.has_apply, setDirty_rec, setDirty_has] at hp ⊢
+        by_cases hi : s.nextId = id
+        · subst hi; simp at hp; subst hp; cases m <;> simp [modeIdx]
+        · simp only [hi, if_false] at hp
+          have := h.cons.2 id pp hp
+          exact ⟨Or.inr (Or.inr this.1), fun h2 => Or.inr (Or.inr (this.2 h2))⟩
+      · intro id hh
+        simp only [write_rec, Store.rec_apply, setDirty_rec, write_nextId, setDirty_nextId] at hh ⊢
+        have : s.nextId ≠ id := by omega
+        simpa [this] using h.fresh id (by omega)
+  exact hfin
+
+theorem good_removePin {s0 : Store} {s : St} (h : Good s0 s) (id : Nat) (pp : PinRec)
+    (hp : s.store.rec? id = some pp) : Good s0 (removePin s id pp) := by
+  have m1 := good_setDirty h
+  have m2 := m1.write (.delIdx (modeIdx pp.mode) pp.cid id) (by simp) (m1.noOrphan.delIdx _ _ _)
+  -- every index entry that points at `id` is one of the (at most) two entries being deleted
+  have key : ∀ w k, s.store.has w k id → (w = modeIdx pp.mode ∧ k = pp.cid) ∨ (w = .N ∧ pp.name ≠ 0 ∧ k = pp.name) := by
+    intro w k hk
+    cases w with
+    | R => obtain ⟨nm, e⟩ := h.cons.1.r k id hk; rw [hp] at e; cases e; simp [modeIdx]
+    | D => obtain ⟨nm, e⟩ := h.cons.1.d k id hk; rw [hp] at e; cases e; simp [modeIdx]
+    | N => obtain ⟨h0, c, m, e⟩ := h.cons.1.n k id hk; rw [hp] at e; cases e; simp [h0]
+  have fin : ∀ s3 : St, Mid s0 s3 → (∀ j, s3.store.rec? j = s.store.rec? j) → s3.nextId = s.nextId →
+      (∀ w k v, s3.store.has w k v ↔ s.store.has w k v ∧ ¬ (w = modeIdx pp.mode ∧ k = pp.cid ∧ v = id) ∧
+        ¬ (w = .N ∧ pp.name ≠ 0 ∧ k = pp.name ∧ v = id)) → Good s0 (s3.write (.delRec id)) := by
+    intro s3 m3 hrec hnx hhas
+    have m4 := m3.write (.delRec id) (by simp) (m3.noOrphan.delRec id (by
+      intro w k hk
+      rw [hhas] at hk
+      rcases key w k hk.1 with ⟨a, b⟩ | ⟨a, b, c⟩
+      · exact hk.2.1 ⟨a, b, rfl⟩
+      · exact hk.2.2 ⟨a, b, c, rfl⟩))
+    refine m4.toGood ?_ ?_
+    · intro j pj hj
+      simp only [write_rec, write_has, Store.rec_apply, Store.has_apply] at hj ⊢
+      by_cases hij : id = j
+      · simp [hij] at hj
+      · simp only [hij, if_false, hrec] at hj
+        have := h.cons.2 j pj hj
+        rw [hhas, hhas]
+        refine ⟨⟨this.1, ?_, ?_⟩, fun hn => ⟨this.2 hn, ?_, ?_⟩⟩ <;> (intro hh; omega)
+    · intro j hj
+      simp only [write_rec, Store.rec_apply, write_nextId, hnx, hrec] at hj ⊢
+      split
+      · rfl
+      · exact h.fresh j hj
+  by_cases hn : pp.name = 0
+  · have e : removePin s id pp = ((setDirty s).write (.delIdx (modeIdx pp.mode) pp.cid id)).write (.delRec id) := by
+      simp [removePin, hn]
+    rw [e]
+    apply fin _ m2
+    · intro j; simp [Store.rec_apply]
+    · simp
+    · intro w k v; simp [Store.has_apply, hn]
+  · have m3 := m2.write (.delIdx .N pp.name id) (by simp) (m2.noOrphan.delIdx _ _ _)
+    have e : removePin s id pp = (((setDirty s).write (.delIdx (modeIdx pp.mode) pp.cid id)).write
+        (.delIdx .N pp.name id)).write (.delRec id) := by
+      simp [removePin, hn]
+    rw [e]
+    apply fin _ m3
+    · intro j; simp [Store.rec_apply]
+    · simp
+    · intro w k v; simp [Store.has_apply, hn]; grind
+
+/-- deleting index entries whose value has no pin record keeps the store consistent -/
+theorem mid_delOrphan {s0 : Store} {s : St} (m : Mid s0 s) (hi : s.store.Indexed)
+    (w : Which) (k id : Nat) (hid : s.store.rec? id = none) :
+    Mid s0 (s.write (.delIdx w k id)) ∧ (s.write (.delIdx w k id)).store.Indexed ∧
+      (s.write (.delIdx w k id)).store.rec? id = none := by
+  refine ⟨m.write _ (by simp) (m.noOrphan.delIdx _ _ _), ?_, by simpa [Store.rec_apply] using hid⟩
+  intro j pj hj
+  simp only [write_rec, write_has, Store.rec_apply, Store.has_apply] at hj ⊢
+  have hne : j ≠ id := by intro e; subst e; simp [hid] at hj
+  have := hi j pj hj
+  exact ⟨⟨this.1, by intro hh; exact hne hh.2.2⟩, fun hn => ⟨this.2 hn, by intro hh; exact hne hh.2.2⟩⟩
+
+theorem good_removeIds {s0 : Store} (c : Nat) (mode : Option Mode) :
+    ∀ (ids : List Nat) (s : St) (removed : Bool), Good s0 s → Good s0 (removeIds c mode ids s removed).1 := by
+  intro ids
+  induction ids with
+  | nil => intro s removed h; simpa [removeIds] using h
+  | cons id rest ih =>
+    intro s removed h
+    unfold removeIds
+    cases hp : RMap.find s.store.recs id with
+    | some pp =>
+      simp only []
+      split
+      · exact ih _ _ (good_removePin h id pp hp)
+      · exact ih _ _ h
+    | none =>
+      simp only []
+      apply ih
+      have m1 := good_setDirty h
+      have hi1 : (setDirty s).store.Indexed := by
+        intro j pj hj
+        simp only [setDirty_rec, setDirty_has] at hj ⊢
+        exact h.cons.2 j pj hj
+      have hid1 : (setDirty s).store.rec? id = none := by rw [setDirty_rec]; exact hp
+      have hfr : ∀ t : St, t.nextId = s.nextId → (∀ j, t.store.rec? j = s.store.rec? j) →
+          ∀ j, t.nextId ≤ j → t.store.rec? j = none := by
+        intro t h1 h2 j hj; rw [h2]; exact h.fresh j (by omega)
+      unfold flushPins
+      apply good_setClean
+      cases mode with
+      | none =>
+        obtain ⟨a1, a2, a3⟩ := mid_delOrphan m1 hi1 .R c id hid1
+        obtain ⟨b1, b2, _⟩ := mid_delOrphan a1 a2 .D c id a3
+        exact b1.toGood b2 (hfr _ (by simp) (by intro j; simp [Store.rec_apply]))
+      | some md =>
+        cases md with
+        | recursive =>
+          obtain ⟨a1, a2, _⟩ := mid_delOrphan m1 hi1 .R c id hid1
+          exact a1.toGood a2 (hfr _ (by simp) (by intro j; simp [Store.rec_apply]))
+        | direct =>
+          obtain ⟨a1, a2, _⟩ := mid_delOrphan m1 hi1 .D c id hid1
+          exact a1.toGood a2 (hfr _ (by simp) (by intro j; simp [Store.rec_apply]))
+
+theorem good_removePinsForCid {s0 : Store} {s : St} (h : Good s0 s) (c : Nat) (mode : Option Mode) :
+    Good s0 (removePinsForCid s c mode).1 := by
+  unfold removePinsForCid
+  exact good_removeIds c mode _ s false h
+
+/-! ### the operations preserve the state invariant -/
+
+/-- invariant of the pinner between API calls -/
+structure Inv (s : St) : Prop where
+  cons : s.store.Consistent
+  clean : s.memDirty = false
+  flag : s.store.dirty ≠ some 1
+  fresh : ∀ id, s.nextId ≤ id → s.store.rec? id = none
+  nodup : RMap.NoDupKeys s.store.recs
+
+theorem Inv.good {s : St} (h : Inv s) (p : List Nat) :
+    Good s.store { s with log := [], present := p } :=
+  ⟨Tr.start { s with present := p } ⟨h.cons.1, fun _ => h.cons.2⟩, h.cons,
+    ⟨fun e => by simp [h.clean] at e, fun e => absurd e h.flag⟩, h.fresh, h.nodup⟩
+
+theorem Good.inv {s0 : Store} {s : St} (h : Good s0 s) (hm : s.memDirty = false) : Inv s :=
+  ⟨h.cons, hm, fun e => by have := h.flag.2 e; simp [hm] at this, h.fresh, h.nodup⟩
+
+theorem removeIds_removed (c : Nat) (mode : Option Mode) :
+    ∀ (ids : List Nat) (s : St), (removeIds c mode ids s true).2 = true := by
+  intro ids
+  induction ids with
+  | nil => intro s; rfl
+  | cons id rest ih =>
+    intro s
+    unfold removeIds
+    cases RMap.find s.store.recs id with
+    | none => simp [ih]
+    | some pp => simp only []; split <;> simp [ih]
+
+theorem removeIds_any_not_removed (c : Nat) (ids : List Nat) (s : St)
+    (h : (removeIds c none ids s false).2 = false) : (removeIds c none ids s false).1 = s := by
+  cases ids with
+  | nil => rfl
+  | cons id rest =>
+    unfold removeIds at h
+    cases hp : RMap.find s.store.recs id with
+    | none => simp [hp, removeIds_removed] at h
+    | some pp => simp [hp, removeIds_removed] at h
+
+theorem flushPins_memDirty (s : St) : (flushPins s).memDirty = false := setClean_memDirty s
+
+theorem good_pinRecursive {s0 : Store} {s : St} (h : Good s0 s) (hm : s.memDirty = false)
+    (dag : Dag) (c : Nat) (fetch : Bool) (name : Nat) (ctx : Ctx) :
+    Good s0 (pinRecursive dag s c fetch name ctx).1 ∧ (pinRecursive dag s c fetch name ctx).1.memDirty = false := by
+  unfold pinRecursive
+  split
+  · exact ⟨h, hm⟩
+  · split
+    · exact ⟨h, hm⟩
+    · split
+      · exact ⟨h, hm⟩
+      · exact ⟨good_setClean (good_removeIds _ _ _ _ _ (good_removeIds _ _ _ _ _ (good_addPin h _ _ _))),
+          flushPins_memDirty _⟩
+
+theorem good_pinDirect {s0 : Store} {s : St} (h : Good s0 s) (hm : s.memDirty = false)
+    (c : Nat) (name : Nat) (ctx : Ctx) :
+    Good s0 (pinDirect s c name ctx).1 ∧ (pinDirect s c name ctx).1.memDirty = false := by
+  unfold pinDirect
+  split
+  · exact ⟨h, hm⟩
+  · split
+    · exact ⟨h, hm⟩
+    · exact ⟨good_setClean (good_removeIds _ _ _ _ _ (good_addPin h _ _ _)), flushPins_memDirty _⟩
+
+theorem good_unpin {s0 : Store} {s : St} (h : Good s0 s) (hm : s.memDirty = false)
+    (c : Nat) (recursive : Bool) (ctx : Ctx) :
+    Good s0 (unpin s c recursive ctx).1 ∧ (unpin s c recursive ctx).1.memDirty = false := by
+  have go : Good s0 (if (removePinsForCid s c none).2 then (flushPins (removePinsForCid s c none).1, Res.ok)
+        else ((removePinsForCid s c none).1, Res.ok)).1 ∧
+      (if (removePinsForCid s c none).2 then (flushPins (removePinsForCid s c none).1, Res.ok)
+        else ((removePinsForCid s c none).1, Res.ok)).1.memDirty = false := by
+    by_cases hr : (removePinsForCid s c none).2 = true
+    · simp only [hr, if_true]
+      exact ⟨good_setClean (good_removePinsForCid h c none), flushPins_memDirty _⟩
+    · simp only [hr]
+      have : (removePinsForCid s c none).1 = s := by
+        unfold removePinsForCid at hr ⊢
+        exact removeIds_any_not_removed _ _ _ (by simpa using hr)
+      simp only [Bool.false_eq_true, if_false, this]
+      exact ⟨h, hm⟩
+  unfold unpin
+  split
+  · exact ⟨h, hm⟩
+  · simp only []
+    split
+    · split
+      · exact go
+      · exact ⟨h, hm⟩
+    · split
+      · exact go
+      · exact ⟨h, hm⟩
+
+theorem good_update {s0 : Store} {s : St} (h : Good s0 s) (hm : s.memDirty = false)
+    (dag : Dag) (src dst : Nat) (u : Bool) (ctx : Ctx) :
+    Good s0 (update dag s src dst u ctx).1 ∧ (update dag s src dst u ctx).1.memDirty = false := by
+  unfold update
+  simp only []
+  repeat' split
+  all_goals first
+    | exact ⟨h, hm⟩
+    | exact ⟨good_setClean (good_removePinsForCid (good_addPin h _ _ _) _ _), flushPins_memDirty _⟩
+    | exact ⟨good_setClean (good_addPin h _ _ _), flushPins_memDirty _⟩
+
+theorem good_step (dag : Dag) {s : St} (h : Inv s) (op : Op) :
+    Good s.store (step dag s op).1 ∧ (step dag s op).1.memDirty = false := by
+  unfold step
+  cases op with
+  | pin c recursive name ctx =>
+    simp only []
+    split
+    · exact good_pinRecursive (h.good _) h.clean _ _ _ _ _
+    · exact good_pinDirect (h.good _) h.clean _ _ _
+  | pinMode c mode name ctx =>
+    simp only []
+    split
+    · exact good_pinRecursive (h.good _) h.clean _ _ _ _ _
+    · split
+      · exact good_pinDirect (h.good _) h.clean _ _ _
+      · exact ⟨h.good _, h.clean⟩
+  | unpin c recursive ctx => exact good_unpin (h.good _) h.clean _ _ _
+  | update src dst u ctx => exact good_update (h.good _) h.clean _ _ _ _ _
+
+theorem inv_step (dag : Dag) {s : St} (h : Inv s) (op : Op) : Inv (step dag s op).1 :=
+  (good_step dag h op).1.inv (good_step dag h op).2
+
+/-! ### reopen: New + rebuildIndexes -/
+
+theorem hasValue_has (st : Store) (w : Which) (k v : Nat) :
+    (st.idx w).hasValue k v = true ↔ st.has w k v := by
+  simp [Idx.hasValue_iff, Store.has]
+
+structure SameBut (s s' : St) : Prop where
+  recs : s'.store.recs = s.store.recs
+  dirty : s'.store.dirty = s.store.dirty
+  mem : s'.memDirty = s.memDirty
+  nextId : s'.nextId = s.nextId
+  present : s'.present = s.present
+
+theorem SameBut.write_idx (s : St) (w : Which) (k v : Nat) (add : Bool) :
+    SameBut s (s.write (if add then .addIdx w k v else .delIdx w k v)) := by
+  cases add <;> exact ⟨by simp [St.write, Store.apply], by simp [St.write, Store.dirty_apply], rfl, rfl, rfl⟩
+
+theorem rebuildOne_spec (s : St) (id : Nat) (pp : PinRec) (hno : s.store.NoOrphan)
+    (hp : s.store.rec? id = some pp) :
+    (rebuildOne s id pp).store.NoOrphan ∧ SameBut s (rebuildOne s id pp) ∧
+    ∀ w k v, (rebuildOne s id pp).store.has w k v ↔ s.store.has w k v ∨
+      (w = modeIdx pp.mode ∧ k = pp.cid ∧ v = id) ∨ (w = .N ∧ pp.name ≠ 0 ∧ k = pp.name ∧ v = id) := by
+  -- the stale-entry branch is dead: an entry in the other index would need a record of the other mode
+  have hstale : (s.store.idx (staleIdx pp.mode)).hasValue pp.cid id = false := by
+    cases hb : (s.store.idx (staleIdx pp.mode)).hasValue pp.cid id with
+    | false => rfl
+    | true =>
+      rw [hasValue_has] at hb
+      cases hm : pp.mode with
+      | recursive =>
+        rw [hm] at hb
+        obtain ⟨nm, e⟩ := hno.d _ _ (by simpa [staleIdx] using hb)
+        rw [hp] at e; injection e with e
+        have := congrArg PinRec.mode e; simp [hm] at this
+      | direct =>
+        rw [hm] at hb
+        obtain ⟨nm, e⟩ := hno.r _ _ (by simpa [staleIdx] using hb)
+        rw [hp] at e; injection e with e
+        have := congrArg PinRec.mode e; simp [hm] at this
+  simp only [rebuildOne, hstale, Bool.false_eq_true, if_false]
+  -- first step: cid index
+  have step1 : ∀ s1 : St, s1 = (if (s.store.idx (modeIdx pp.mode)).hasValue pp.cid id = true then s
+        else s.write (.addIdx (modeIdx pp.mode) pp.cid id)) →
+      s1.store.NoOrphan ∧ SameBut s s1 ∧ (∀ j, s1.store.rec? j = s.store.rec? j) ∧
+      ∀ w k v, s1.store.has w k v ↔ s.store.has w k v ∨ (w = modeIdx pp.mode ∧ k = pp.cid ∧ v = id) := by
+    intro s1 e
+    by_cases hh : (s.store.idx (modeIdx pp.mode)).hasValue pp.cid id = true
+    · simp only [hh, if_true] at e
+      subst e
+      refine ⟨hno, ⟨rfl, rfl, rfl, rfl, rfl⟩, fun _ => rfl, ?_⟩
+      intro w k v
+      rw [hasValue_has] at hh
+      constructor
+      · exact Or.inl
+      · rintro (h | ⟨rfl, rfl, rfl⟩)
+        · exact h
+        · exact hh
+    · simp only [hh] at e
+      subst e
+      refine ⟨?_, ?_, ?_, ?_⟩
+      · apply hno.addIdx
+        cases hm : pp.mode <;> simp [modeIdx, hp] <;> (cases pp; simp_all)
+      · exact ⟨by simp [St.write, Store.apply], by simp [St.write, Store.dirty_apply], rfl, rfl, rfl⟩
+      · intro j; simp [Store.rec_apply]
+      · intro w k v; simp [Store.has_apply]; grind
+  obtain ⟨n1, sb1, r1, h1⟩ := step1 _ rfl
+  generalize (if (s.store.idx (modeIdx pp.mode)).hasValue pp.cid id = true then s
+        else s.write (.addIdx (modeIdx pp.mode) pp.cid id)) = s1 at n1 sb1 r1 h1 ⊢
+  by_cases h0 : pp.name = 0
+  · simp only [h0, ne_eq, not_true_eq_false, false_and, if_false]
+    refine ⟨n1, sb1, ?_⟩
+    intro w k v
+    rw [h1]
+    simp [h0]
+  · cases hb : s1.store.idxN.hasValue pp.name id with
+    | true =>
+      simp only [hb, ne_eq, h0, not_false_eq_true, Bool.not_true, Bool.false_eq_true, and_false, if_false]
+      refine ⟨n1, sb1, ?_⟩
+      intro w k v
+      rw [h1]
+      have h2 : s1.store.has .N pp.name id := (hasValue_has s1.store .N _ _).1 hb
+      have h3 := (h1 .N pp.name id).1 h2
+      constructor
+      · rintro (h | h)
+        · exact Or.inl h
+        · exact Or.inr (Or.inl h)
+      · rintro (h | h | ⟨hw, _, hk, hv⟩)
+        · exact Or.inl h
+        · exact Or.inr h
+        · rw [hw, hk, hv]; exact h3
+    | false =>
+      simp only [hb, ne_eq, h0, not_false_eq_true, Bool.not_false, and_self, if_true]
+      refine ⟨?_, ?_, ?_⟩
+      · show (s1.store.apply (Write.addIdx Which.N pp.name id)).NoOrphan
+        apply n1.addIdx
+        refine ⟨h0, pp.cid, pp.mode, ?_⟩
+        rw [r1, hp]
+      · exact ⟨by simp [St.write, Store.apply, sb1.recs], by simp [St.write, Store.dirty_apply, sb1.dirty],
+          sb1.mem, sb1.nextId, sb1.present⟩
+      · intro w k v
+        simp only [write_has, Store.has_apply, h1]
+        grind
+
+theorem SameBut.refl (s : St) : SameBut s s := ⟨rfl, rfl, rfl, rfl, rfl⟩
+theorem SameBut.trans {a b c : St} (h1 : SameBut a b) (h2 : SameBut b c) : SameBut a c :=
+  ⟨h2.recs.trans h1.recs, h2.dirty.trans h1.dirty, h2.mem.trans h1.mem, h2.nextId.trans h1.nextId,
+    h2.present.trans h1.present⟩
+theorem SameBut.recOf {a b : St} (h : SameBut a b) (j : Nat) : b.store.rec? j = a.store.rec? j := by
+  simp [Store.rec?, h.recs]
+
+/-- what one record contributes to the indexes -/
+def entryOf (e : Nat × PinRec) (w : Which) (k v : Nat) : Prop :=
+  (w = modeIdx e.2.mode ∧ k = e.2.cid ∧ v = e.1) ∨ (w = .N ∧ e.2.name ≠ 0 ∧ k = e.2.name ∧ v = e.1)
+
+theorem rebuild_fold (l : List (Nat × PinRec)) : ∀ s : St, s.store.NoOrphan →
+    (∀ e ∈ l, s.store.rec? e.1 = some e.2) →
+    (l.foldl (fun s e => rebuildOne s e.1 e.2) s).store.NoOrphan ∧
+    SameBut s (l.foldl (fun s e => rebuildOne s e.1 e.2) s) ∧
+    ∀ w k v, (l.foldl (fun s e => rebuildOne s e.1 e.2) s).store.has w k v ↔
+      s.store.has w k v ∨ ∃ e ∈ l, entryOf e w k v := by
+  induction l with
+  | nil => intro s hno _; exact ⟨hno, SameBut.refl s, by simp⟩
+  | cons e r ih =>
+    intro s hno hl
+    obtain ⟨n1, sb1, h1⟩ := rebuildOne_spec s e.1 e.2 hno (hl e (by simp))
+    obtain ⟨n2, sb2, h2⟩ := ih (rebuildOne s e.1 e.2) n1 (by
+      intro e' he'
+      rw [sb1.recOf]
+      exact hl e' (by simp [he']))
+    refine ⟨n2, sb1.trans sb2, ?_⟩
+    intro w k v
+    simp only [List.foldl_cons]
+    rw [h2, h1]
+    simp only [List.mem_cons, exists_eq_or_imp, entryOf]
+    grind
+
+theorem reopen_inv (st : Store) (n : Nat) (p : List Nat) (hs : st.Safe)
+    (hnd : RMap.NoDupKeys st.recs) (hf : ∀ id, n ≤ id → st.rec? id = none) :
+    Inv (reopenStore st n p) ∧ (reopenStore st n p).store.recs = st.recs ∧
+      (reopenStore st n p).nextId = n ∧ (reopenStore st n p).present = p := by
+  unfold reopenStore
+  by_cases hd : st.dirty = some 1
+  · simp only [hd, if_true]
+    obtain ⟨n1, sb1, h1⟩ := rebuild_fold st.recs
+      { store := st, memDirty := true, nextId := n, present := p, log := [] } hs.1 (by
+        intro e he
+        exact RMap.find_of_mem st.recs hnd e.1 e.2 he)
+    generalize (st.recs.foldl (fun s e => rebuildOne s e.1 e.2)
+      { store := st, memDirty := true, nextId := n, present := p, log := [] }) = s1 at n1 sb1 h1
+    have hix : s1.store.Indexed := by
+      intro id pp hp
+      rw [sb1.recOf] at hp
+      have hm : (id, pp) ∈ st.recs := RMap.mem_of_find st.recs id pp hp
+      exact ⟨(h1 _ _ _).2 (Or.inr ⟨(id, pp), hm, Or.inl ⟨rfl, rfl, rfl⟩⟩),
+        fun h0 => (h1 _ _ _).2 (Or.inr ⟨(id, pp), hm, Or.inr ⟨rfl, h0, rfl, rfl⟩⟩)⟩
+    have hmem : s1.memDirty = true := sb1.mem
+    refine ⟨⟨⟨?_, ?_⟩, ?_, ?_, ?_, ?_⟩, ?_, ?_, ?_⟩
+    · constructor <;> intro a b hab <;> simp only [flushPins, setClean_has, setClean_rec] at hab ⊢
+      · exact n1.r a b hab
+      · exact n1.d a b hab
+      · exact n1.n a b hab
+    · intro id pp hp
+      simp only [flushPins, setClean_has, setClean_rec] at hp ⊢
+      exact hix id pp hp
+    · exact setClean_memDirty _
+    · simp [flushPins, setClean, hmem, St.write, Store.dirty_apply]
+    · intro id hid
+      simp only [flushPins, setClean_rec, setClean_nextId, sb1.nextId, sb1.recOf] at hid ⊢
+      exact hf id hid
+    · simp [flushPins, setClean, hmem, St.write, Store.apply, sb1.recs, hnd]
+    · simp [flushPins, setClean, hmem, St.write, Store.apply, sb1.recs]
+    · simp [flushPins, sb1.nextId]
+    · simp [flushPins, sb1.present]
+  · simp only [hd, if_false]
+    refine ⟨⟨⟨hs.1, hs.2 hd⟩, rfl, hd, hf, hnd⟩, ?_⟩
+    simp
+
+/-! ### shape of the write log of one operation -/
+
+def Write.isPut : Write → Bool
+  | .putRec _ _ => true
+  | _ => false
+
+def Write.isRecW : Write → Bool
+  | .putRec _ _ => true
+  | .delRec _ => true
+  | _ => false
+
+/-- a record is written only while no record has been written or deleted yet in this operation -/
+def OrderOK (L : List Write) : Prop :=
+  ∀ A w B, L = A ++ w :: B → w.isPut = true → ∀ a ∈ A, a.isRecW = false
+
+structure LogOK (s : St) : Prop where
+  order : OrderOK s.log
+  bound : ∀ id r, Write.putRec id r ∈ s.log → id < s.nextId
+
+def NoRecW (s : St) : Prop := ∀ a ∈ s.log, a.isRecW = false
+
+theorem OrderOK.snoc {L : List Write} (h : OrderOK L) (w : Write)
+    (hw : w.isPut = true → ∀ a ∈ L, a.isRecW = false) : OrderOK (L ++ [w]) := by
+  intro A x B e hx a ha
+  -- either x is the last element or it lies inside L
+  rcases List.eq_nil_or_concat B with hB | ⟨B', y, hB⟩
+  · subst hB
+    have := List.append_inj' e (by simp)
+    obtain ⟨e1, e2⟩ := this
+    simp at e2; subst e2; subst e1
+    exact hw hx a ha
+  · subst hB
+    have e' : L ++ [w] = (A ++ x :: B') ++ [y] := by simp [e]
+    have := List.append_inj' e' (by simp)
+    exact h A x B' this.1 hx a ha
+
+theorem LogOK.write_nonput {s : St} (h : LogOK s) (w : Write) (hw : w.isPut = false) : LogOK (s.write w) := by
+  refine ⟨h.order.snoc w (by simp [hw]), ?_⟩
+  intro id r hm
+  simp only [St.write, List.mem_append, List.mem_singleton] at hm
+  rcases hm with hm | hm
+  · exact h.bound id r hm
+  · subst hm; simp [Write.isPut] at hw
+
+theorem LogOK.write_put {s : St} (h : LogOK s) (hn : NoRecW s) (id : Nat) (r : PinRec) (hid : id < s.nextId) :
+    LogOK (s.write (.putRec id r)) := by
+  refine ⟨h.order.snoc _ (fun _ => hn), ?_⟩
+  intro id' r' hm
+  simp only [St.write, List.mem_append, List.mem_singleton] at hm
+  rcases hm with hm | hm
+  · exact h.bound id' r' hm
+  · cases hm; exact hid
+
+theorem logOK_setDirty {s : St} (h : LogOK s) : LogOK (setDirty s) := by
+  unfold setDirty
+  split
+  · exact h
+  · have := h.write_nonput (.putDirty 1) rfl
+    exact ⟨this.order, this.bound⟩
+
+theorem noRecW_setDirty {s : St} (h : NoRecW s) : NoRecW (setDirty s) := by
+  unfold setDirty
+  split
+  · exact h
+  · intro a ha
+    simp only [St.write, List.mem_append, List.mem_singleton] at ha
+    rcases ha with ha | ha
+    · exact h a ha
+    · subst ha; rfl
+
+theorem logOK_setClean {s : St} (h : LogOK s) : LogOK (setClean s) := by
+  unfold setClean
+  split
+  · have := h.write_nonput (.putDirty 0) rfl
+    exact ⟨this.order, this.bound⟩
+  · exact h
+
+theorem logOK_addPin {s : St} (h : LogOK s) (hn : NoRecW s) (c : Nat) (m : Mode) (name : Nat) :
+    LogOK (addPin s c m name) := by
+  have h1 : LogOK { s with nextId := s.nextId + 1 } :=
+    ⟨h.order, fun id r hm => Nat.lt_succ_of_lt (h.bound id r hm)⟩
+  have n1 : NoRecW { s with nextId := s.nextId + 1 } := hn
+  have h2 := logOK_setDirty h1
+  have n2 := noRecW_setDirty n1
+  have h3 := h2.write_put n2 s.nextId ⟨c, m, name⟩ (by simp)
+  have h4 := h3.write_nonput (.addIdx (modeIdx m) c s.nextId) rfl
+  unfold addPin
+  by_cases hnm : name = 0
+  · simpa [hnm] using h4
+  · simpa [hnm] using h4.write_nonput (.addIdx .N name s.nextId) rfl
+
+theorem logOK_removePin {s : St} (h : LogOK s) (id : Nat) (pp : PinRec) : LogOK (removePin s id pp) := by
+  have h1 := logOK_setDirty h
+  have h2 := h1.write_nonput (.delIdx (modeIdx pp.mode) pp.cid id) rfl
+  unfold removePin
+  by_cases hnm : pp.name = 0
+  · simpa [hnm] using h2.write_nonput (.delRec id) rfl
+  · simpa [hnm] using (h2.write_nonput (.delIdx .N pp.name id) rfl).write_nonput (.delRec id) rfl
+
+theorem logOK_removeIds (c : Nat) (mode : Option Mode) :
+    ∀ (ids : List Nat) (s : St) (removed : Bool), LogOK s → LogOK (removeIds c mode ids s removed).1 := by
+  intro ids
+  induction ids with
+  | nil => intro s removed h; simpa [removeIds] using h
+  | cons id rest ih =>
+    intro s removed h
+    unfold removeIds
+    cases RMap.find s.store.recs id with
+    | some pp =>
+      simp only []
+      split
+      · exact ih _ _ (logOK_removePin h id pp)
+      · exact ih _ _ h
+    | none =>
+      simp only []
+      apply ih
+      unfold flushPins
+      apply logOK_setClean
+      have h1 := logOK_setDirty h
+      cases mode with
+      | none => exact (h1.write_nonput (.delIdx .R c id) rfl).write_nonput (.delIdx .D c id) rfl
+      | some md => cases md <;> exact h1.write_nonput _ rfl
+
+theorem nextId_removeIds (c : Nat) (mode : Option Mode) :
+    ∀ (ids : List Nat) (s : St) (removed : Bool), (removeIds c mode ids s removed).1.nextId = s.nextId := by
+  intro ids
+  induction ids with
+  | nil => intro s removed; rfl
+  | cons id rest ih =>
+    intro s removed
+    unfold removeIds
+    cases RMap.find s.store.recs id with
+    | some pp => simp only []; split <;> simp [ih]
+    | none =>
+      simp only [ih, flushPins, setClean_nextId, repairIdx]
+      cases mode with
+      | none => simp
+      | some md => cases md <;> simp
+
+theorem present_removeIds (c : Nat) (mode : Option Mode) :
+    ∀ (ids : List Nat) (s : St) (removed : Bool), (removeIds c mode ids s removed).1.present = s.present := by
+  intro ids
+  induction ids with
+  | nil => intro s removed; rfl
+  | cons id rest ih =>
+    intro s removed
+    unfold removeIds
+    cases RMap.find s.store.recs id with
+    | some pp => simp only []; split <;> simp [ih]
+    | none =>
+      simp only [ih, flushPins, setClean_present, repairIdx]
+      cases mode with
+      | none => simp
+      | some md => cases md <;> simp
+
+theorem logOK_removePinsForCid {s : St} (h : LogOK s) (c : Nat) (mode : Option Mode) :
+    LogOK (removePinsForCid s c mode).1 := logOK_removeIds c mode _ s false h
+
+theorem nextId_removePinsForCid (s : St) (c : Nat) (mode : Option Mode) :
+    (removePinsForCid s c mode).1.nextId = s.nextId := nextId_removeIds c mode _ s false
+
+theorem logOK_step (dag : Dag) (s : St) (op : Op) : LogOK (step dag s op).1 := by
+  have h0 : ∀ p, LogOK { s with log := [], present := p } := fun p =>
+    ⟨by intro A w B e; simp at e, by intro id r hm; simp at hm⟩
+  have n0 : ∀ p, NoRecW { s with log := [], present := p } := fun p => by intro a ha; simp at ha
+  have hrec : ∀ p c fetch name ctx, LogOK (pinRecursive dag { s with log := [], present := p } c fetch name ctx).1 := by
+    intro p c fetch name ctx
+    unfold pinRecursive
+    repeat' split
+    all_goals first
+      | exact h0 p
+      | exact logOK_setClean (logOK_removeIds _ _ _ _ _ (logOK_removeIds _ _ _ _ _ (logOK_addPin (h0 p) (n0 p) _ _ _)))
+  have hdir : ∀ p c name ctx, LogOK (pinDirect { s with log := [], present := p } c name ctx).1 := by
+    intro p c name ctx
+    unfold pinDirect
+    repeat' split
+    all_goals first
+      | exact h0 p
+      | exact logOK_setClean (logOK_removeIds _ _ _ _ _ (logOK_addPin (h0 p) (n0 p) _ _ _))
+  unfold step
+  cases op with
+  | pin c recursive name ctx =>
+    simp only []
+    split
+    · exact hrec _ _ _ _ _
+    · exact hdir _ _ _ _
+  | pinMode c mode name ctx =>
+    simp only []
+    split
+    · exact hrec _ _ _ _ _
+    · split
+      · exact hdir _ _ _ _
+      · exact h0 _
+  | unpin c recursive ctx =>
+    simp only [unpin]
+    repeat' split
+    all_goals first
+      | exact h0 _
+      | exact logOK_setClean (logOK_removePinsForCid (h0 _) _ _)
+      | exact logOK_removePinsForCid (h0 _) _ _
+  | update src dst u ctx =>
+    simp only [update]
+    repeat' split
+    all_goals first
+      | exact h0 _
+      | exact logOK_setClean (logOK_removePinsForCid (logOK_addPin (h0 _) (n0 _) _ _ _) _ _)
+      | exact logOK_setClean (logOK_addPin (h0 _) (n0 _) _ _ _)
+
+theorem nextId_step_le (dag : Dag) (s : St) (op : Op) : s.nextId ≤ (step dag s op).1.nextId := by
+  unfold step
+  cases op with
+  | pin c recursive name ctx =>
+    simp only [pinRecursive, pinDirect]
+    repeat' split
+    all_goals simp [flushPins, nextId_removeIds]
+  | pinMode c mode name ctx =>
+    simp only [pinRecursive, pinDirect]
+    repeat' split
+    all_goals simp [flushPins, nextId_removeIds]
+  | unpin c recursive ctx =>
+    simp only [unpin]
+    repeat' split
+    all_goals simp [flushPins, nextId_removePinsForCid]
+  | update src dst u ctx =>
+    simp only [update]
+    repeat' split
+    all_goals simp [flushPins, nextId_removePinsForCid]
+
+/-! ### crash images -/
+
+theorem applyAll_noRecW (X : List Write) : ∀ st : Store, (∀ w ∈ X, w.isRecW = false) →
+    (st.applyAll X).recs = st.recs := by
+  induction X with
+  | nil => intro st _; rfl
+  | cons w r ih =>
+    intro st h
+    have hw := h w (by simp)
+    show ((st.apply w).applyAll r).recs = st.recs
+    rw [ih _ (fun a ha => h a (by simp [ha]))]
+    cases w <;> simp [Write.isRecW, Store.apply] at hw ⊢
+
+theorem applyAll_noPut (X : List Write) : ∀ st : Store, (∀ w ∈ X, w.isPut = false) →
+    ∀ id pp, (st.applyAll X).rec? id = some pp → st.rec? id = some pp := by
+  induction X with
+  | nil => intro st _ id pp h; exact h
+  | cons w r ih =>
+    intro st h id pp hp
+    have hw := h w (by simp)
+    have := ih (st.apply w) (fun a ha => h a (by simp [ha])) id pp hp
+    rw [Store.rec_apply] at this
+    cases w with
+    | putRec => simp [Write.isPut] at hw
+    | delRec id' => simp only at this; split at this <;> simp_all
+    | putDirty => exact this
+    | addIdx => exact this
+    | delIdx => exact this
+
+theorem applyAll_rec_origin (X : List Write) : ∀ st : Store, ∀ id pp,
+    (st.applyAll X).rec? id = some pp → st.rec? id = some pp ∨ ∃ r, Write.putRec id r ∈ X := by
+  induction X with
+  | nil => intro st id pp h; exact Or.inl h
+  | cons w r ih =>
+    intro st id pp hp
+    rcases ih (st.apply w) id pp hp with h | ⟨r', h⟩
+    · rw [Store.rec_apply] at h
+      cases w with
+      | putRec id' r' =>
+        simp only at h
+        by_cases e : id' = id
+        · subst e; exact Or.inr ⟨r', by simp⟩
+        · simp [e] at h; exact Or.inl h
+      | delRec id' => simp only at h; split at h <;> simp_all
+      | putDirty => exact Or.inl h
+      | addIdx => exact Or.inl h
+      | delIdx => exact Or.inl h
+    · exact Or.inr ⟨r', by simp [h]⟩
+
+theorem applyAll_nodup (X : List Write) : ∀ st : Store, RMap.NoDupKeys st.recs →
+    RMap.NoDupKeys (st.applyAll X).recs := by
+  induction X with
+  | nil => intro st h; exact h
+  | cons w r ih =>
+    intro st h
+    apply ih
+    cases w with
+    | putRec id r => exact RMap.noDupKeys_insert _ _ _ h
+    | delRec id => exact RMap.noDupKeys_erase _ _ h
+    | putDirty b => exact h
+    | addIdx w k v => simpa [Store.apply] using h
+    | delIdx w k v => simpa [Store.apply] using h
+
+theorem orderOK_split {L : List Write} (h : OrderOK L) (n : Nat) :
+    (∀ w ∈ L.take n, w.isRecW = false) ∨ (∀ w ∈ L.drop n, w.isPut = false) := by
+  by_cases hd : ∀ w ∈ L.drop n, w.isPut = false
+  · exact Or.inr hd
+  · left
+    have hd' : ∃ w, w ∈ L.drop n ∧ w.isPut = true := by
+      apply Classical.byContradiction
+      intro hc
+      apply hd
+      intro w hw
+      cases hb : w.isPut with
+      | false => rfl
+      | true => exact absurd ⟨w, hw, hb⟩ hc
+    obtain ⟨w, hw, hp⟩ := hd'
+    obtain ⟨A, B, e⟩ := List.append_of_mem hw
+    have hL : L = (L.take n ++ A) ++ w :: B := by
+      conv => lhs; rw [← List.take_append_drop n L, e]
+      simp
+    intro a ha
+    exact h _ w B hL (by simpa using hp) a (by simp [ha])
+
+/-! ### the pin model: what "pinned" means -/
+
+/-- `c` is reachable from `r` through at least one link -/
+inductive Reach (dag : Dag) : Nat → Nat → Prop
+  | link {r c : Nat} : c ∈ dag.links r → Reach dag r c
+  | step {r x c : Nat} : x ∈ dag.links r → Reach dag x c → Reach dag r c
+
+/-- `c` is pinned according to the indexes: recursively, directly, or indirectly (below a recursive root) -/
+def Pinned (dag : Dag) (st : Store) (c : Nat) : Prop :=
+  (∃ id, st.has .R c id) ∨ (∃ id, st.has .D c id) ∨ ∃ r id, st.has .R r id ∧ Reach dag r c
+
+/-- the same, read off the pin records -/
+def RecPinned (dag : Dag) (st : Store) (c : Nat) : Prop :=
+  (∃ id m nm, st.rec? id = some ⟨c, m, nm⟩) ∨
+    ∃ r id nm, st.rec? id = some ⟨r, .recursive, nm⟩ ∧ Reach dag r c
+
+theorem pinned_iff_recPinned (dag : Dag) (st : Store) (h : st.Consistent) (c : Nat) :
+    Pinned dag st c ↔ RecPinned dag st c := by
+  constructor
+  · rintro (⟨id, hr⟩ | ⟨id, hd⟩ | ⟨r, id, hr, hre⟩)
+    · obtain ⟨nm, e⟩ := h.1.r c id hr; exact Or.inl ⟨id, _, nm, e⟩
+    · obtain ⟨nm, e⟩ := h.1.d c id hd; exact Or.inl ⟨id, _, nm, e⟩
+    · obtain ⟨nm, e⟩ := h.1.r r id hr; exact Or.inr ⟨r, id, nm, e, hre⟩
+  · rintro (⟨id, m, nm, e⟩ | ⟨r, id, nm, e, hre⟩)
+    · have := (h.2 id _ e).1
+      cases m with
+      | recursive => exact Or.inl ⟨id, this⟩
+      | direct => exact Or.inr (Or.inl ⟨id, this⟩)
+    · exact Or.inr (Or.inr ⟨r, id, (h.2 id _ e).1, hre⟩)
+
+theorem recPinned_mono (dag : Dag) (a b : Store) (hsub : ∀ id pp, a.rec? id = some pp → b.rec? id = some pp)
+    (c : Nat) (h : RecPinned dag a c) : RecPinned dag b c := by
+  rcases h with ⟨id, m, nm, e⟩ | ⟨r, id, nm, e, hre⟩
+  · exact Or.inl ⟨id, m, nm, hsub _ _ e⟩
+  · exact Or.inr ⟨r, id, nm, hsub _ _ e, hre⟩
+
+/-- the records of every crash image contain the records before the call or the records after it -/
+theorem crash_recs (dag : Dag) (s : St) (op : Op) (n : Nat) :
+    (∀ id pp, s.store.rec? id = some pp →
+        (s.store.applyAll ((step dag s op).1.log.take n)).rec? id = some pp) ∨
+    (∀ id pp, (s.store.applyAll (step dag s op).1.log).rec? id = some pp →
+        (s.store.applyAll ((step dag s op).1.log.take n)).rec? id = some pp) := by
+  rcases orderOK_split (logOK_step dag s op).order n with h | h
+  · left
+    intro id pp hp
+    simp only [Store.rec?, applyAll_noRecW _ _ h] at hp ⊢
+    exact hp
+  · right
+    intro id pp hp
+    have e : (step dag s op).1.log = (step dag s op).1.log.take n ++ (step dag s op).1.log.drop n :=
+      (List.take_append_drop n _).symm
+    rw [e, Store.applyAll_append] at hp
+    exact applyAll_noPut _ _ h id pp hp
+
+/-- pin ids in a crash image are below the id counter -/
+theorem crash_fresh (dag : Dag) (s : St) (op : Op) (n : Nat) (h : Inv s) :
+    ∀ id, (step dag s op).1.nextId ≤ id →
+      (s.store.applyAll ((step dag s op).1.log.take n)).rec? id = none := by
+  intro id hid
+  cases hr : (s.store.applyAll ((step dag s op).1.log.take n)).rec? id with
+  | none => rfl
+  | some pp =>
+    exfalso
+    rcases applyAll_rec_origin _ _ _ _ hr with h0 | ⟨r, hm⟩
+    · have := h.fresh id (Nat.le_trans (nextId_step_le dag s op) hid)
+      simp [this] at h0
+    · have := (logOK_step dag s op).bound id r (List.mem_of_mem_take hm)
+      omega
+
+theorem crashReopen_spec (dag : Dag) (s : St) (op : Op) (n : Nat) (h : Inv s) :
+    Inv (crashReopen dag s op n) ∧
+    (crashReopen dag s op n).store.recs = (s.store.applyAll ((step dag s op).1.log.take n)).recs := by
+  unfold crashReopen
+  have := reopen_inv _ (step dag s op).1.nextId (step dag s op).1.present
+    ((good_step dag h op).1.tr.2 n) (applyAll_nodup _ _ h.nodup) (crash_fresh dag s op n h)
+  exact ⟨this.1, this.2.1⟩
 
 end C22
